@@ -293,6 +293,15 @@ func c01Priority(c *Ctx, s *scanShape) {
 		r.Undecided("C01.3", "dir-loop", c.U.Pos(s.scan.Pos()), "no loop over the dirs parameter in scanSpecDirs")
 		return
 	}
+	// each directory is walked once per scan: a walk repeated for the same directory hands the
+	// files already reported to the scan function again (a device then conflicts with itself)
+	for _, call := range ir.Calls(s.scan) {
+		if f := call.Common().StaticCallee(); f != nil && (f.String() == "path/filepath.Walk" || f.String() == "path/filepath.WalkDir") {
+			hdr := dirLoop.Header
+			again := ir.CanReach(s.scan, ir.PathQuery{From: call.(ssa.Instruction), To: call.(ssa.Instruction), Stop: func(in ssa.Instruction) bool { return in.Block() == hdr }})
+			r.Check("C01.3", "walk-once-per-dir", !again, c.pos(call), "within one iteration over the directories the directory is walked once (no retry loop around the walk)")
+		}
+	}
 	r.Check("C01.3", "dir-loop", dirLoop.Complete, c.pos(dirLoop.Header.Instrs[len(dirLoop.Header.Instrs)-1]), "directories are scanned by a complete ascending loop (lowest priority first)")
 	isIndex := func(v ssa.Value) bool {
 		for _, p := range c.U.PathsOf(v) {
